@@ -19,3 +19,35 @@ func init() {
 		Prepare:     hTest("props/c21", "^TestC23", hOpts{QShards: 8, TShards: 16, QTimeout: 5 * time.Minute, TTimeout: 60 * time.Minute}),
 	}
 }
+
+func init() {
+	specs["C25"] = &spec{
+		LevelText:   "rapid-generated TL1 schemas (written as one or two files, random layout) and the repository's schema sets are listed by the real CLI (tl2gen --language=canonical, built from the working tree); oracle in three layers: (1) structure: the five builtin lines, then exactly one line per constructor/function in input order, each ending with its source file; (2) content: the text before the comment equals name#<effective tag> {template arguments} followed by the harness' reference canonical form of the combinator (so names, tags, template arguments, every field and the result are pinned); (3) parse-back: the line terminated with ';' (in the functions section for functions) parses into one combinator equal to the input's on a normal form (annotations and constant spelling aside).",
+		LevelNote:   "Trusted: schemagen's reference canonical form and tlast adapter. Layer (3) is suspended for combinators containing a type application (known finding F11); layers (1) and (2) apply to all.",
+		Technique:   "property-based testing (rapid): generated schemas through the real CLI, reference-model + parse-back oracles",
+		Rule:        "non-trivial iff some combinator has a mask, brackets, template argument, explicit tag or type application; distinct by (schema, layout, split); classes: multi-file, repository-schema, parse-back-checked",
+		Assumptions: []string{"modifiers are not compared (the statement lists names, tags, template arguments, fields and result types)", "a schema the generator rejects with a message is outside the property"},
+		Floors:      []floor{{"parse-back-checked", 0.5, ""}},
+		Prepare:     hTest("props/cli", "^TestC25", hOpts{QShards: 8, TShards: 16, QTimeout: 8 * time.Minute, TTimeout: 60 * time.Minute, Tools: []string{"tl2gen"}}),
+	}
+	specs["C26"] = &spec{
+		LevelText:   "rapid-generated TL1 schemas (one or two files) and the repository's schema sets are compiled to TLO by the real CLI (tl2gen --language=tlo --schemaTimestamp=<random non-zero>); the file is decoded by the harness' own reader of the TLO format (hand-written from tls.tl, must consume the file exactly) and compared with the schema: date = timestamp; constructors and functions each exactly once with (name id, tag); every declared type exactly once with arity, params_type bitmask, constructor count and name = XOR of its constructors' tags; constructors point at their type's name.",
+		LevelNote:   "Trusted: the harness' TLO reader (props/cli/tlo.go) and schemagen's reference tags.",
+		Technique:   "property-based testing (rapid): generated schemas through the real CLI, independent decoder + reference-model oracle",
+		Rule:        "non-trivial iff the schema has a union and a function; distinct by (schema, layout, split, timestamp)",
+		Assumptions: []string{"--schemaTimestamp=0 means 'now' and is not used"},
+		Prepare:     hTest("props/cli", "^TestC26", hOpts{QShards: 8, TShards: 16, QTimeout: 8 * time.Minute, TTimeout: 60 * time.Minute, Tools: []string{"tl2gen"}}),
+	}
+}
+
+func init() {
+	specs["C24"] = &spec{
+		LevelText:   "rapid-generated TL1 schemas (one or two files) with a planted tag defect in two thirds of the cases - two equal explicit tags, an explicit tag equal to the CRC32 implicit tag of another combinator (either declaration order), an explicit zero tag, a function tag equal to a type constructor's tag - are given to both generators through their CLIs (tl2gen --language=lint and tlgen in linter mode, built from the working tree). The harness recomputes every effective tag with its own reference canonical form; whenever a generator exits 0 all tags must be pairwise distinct and non-zero, a rejection must carry a message, and neither may crash.",
+		LevelNote:   "Trusted: schemagen's reference tags (validated on the repository's 4081 combinators). TL2 magics are covered only as far as the generated TL1 schemas go.",
+		Technique:   "property-based testing (rapid): fault-planting schema generator + reference-model oracle through both CLIs",
+		Rule:        "non-trivial iff a collision / zero tag was planted; distinct by (schema, plant, positions); classes report per-tool verdicts so that vacuous rejection of clean schemas is visible",
+		Assumptions: []string{"a clean schema may still be rejected by a generator for reasons unrelated to tags (counted in the classes)"},
+		Floors:      []floor{{"tl2gen-accepts", 0.2, ""}, {"tlgen-accepts", 0.15, ""}},
+		Prepare:     hTest("props/cli", "^TestC24", hOpts{QShards: 8, TShards: 16, QTimeout: 8 * time.Minute, TTimeout: 60 * time.Minute, Tools: []string{"tl2gen", "tlgen"}}),
+	}
+}
